@@ -40,7 +40,12 @@ def monotone_map(rng, n, style=None):
     """n strictly increasing floats with relative gaps >= 1e-6 (ranks 0..n-1 -> floats).
 
     Styles cover negative values (maximised objectives), tiny and huge magnitudes, integers, and mixtures."""
-    style = style or rng.choice(["int", "neg", "unit", "tiny", "huge", "mixed", "offset", "minuscule"])
+    style = style or rng.choice(["int", "neg", "unit", "tiny", "huge", "mixed", "offset", "minuscule", "bigoffset"])
+    if style == "bigoffset":
+        # large magnitude, small differences: values that any relative tolerance of 1e-9 or coarser would merge
+        base = rng.choice([1e9, -1e9, 4e8])
+        step = rng.choice([0.5, 0.01])
+        return sorted(base + step * k for k in rng.sample(range(0, 60), n))
     if style == "minuscule":
         # magnitudes whose products underflow (1e-170 * 1e-170 = 0.0) and whose differences are exact
         unit = rng.choice([1e-170, 3e-165, 1e-200]) * rng.choice([-1, 1])
